@@ -48,7 +48,7 @@ type rsCase struct {
 	Choice rsChoice `json:"choice"`
 	// Before: another case validated immediately before this one in the same process (its result is discarded)
 	Before *rsCase `json:"before,omitempty"`
-	WS     int      `json:"ws"`
+	WS     int     `json:"ws"`
 }
 
 type rsObs struct {
@@ -218,7 +218,9 @@ func (c rsCase) obj(n string, part int) ordObj {
 }
 
 // aliased: the keywords @type and @id are written through terms of the context
-func (c rsCase) aliased() bool { return c.Choice.Kw == "alias" && c.Choice.Ctx != "none" && c.Choice.Ctx != "" }
+func (c rsCase) aliased() bool {
+	return c.Choice.Kw == "alias" && c.Choice.Ctx != "none" && c.Choice.Ctx != ""
+}
 
 func (c rsCase) kwKey(k string) string {
 	if c.aliased() {
